@@ -17,7 +17,7 @@ from liesel.goose.mh import mh_step
 from liesel.goose.mh_kernel import MHProposal
 from simkit.core import EventLog, SutError, Violations, canon, sha
 
-RUN_CAP_S = 300
+RUN_CAP_S = 900
 F32 = np.float32
 SPECIAL = [float("inf"), float("-inf"), float("nan")]
 _KEYS = None
